@@ -43,6 +43,10 @@ class Spy:
                 self.heuristic_calls = getattr(self, 'heuristic_calls', []) + [('prepare', float(wc_value), tol_dimension_reduction)]
                 return super().prepare_heuristic(wc_value, tol_dimension_reduction)
 
+            def solve(self, **kwargs):
+                self.solve_calls = getattr(self, 'solve_calls', []) + [dict(kwargs)]
+                return super().solve(**kwargs)
+
             def heuristic(self, weight):
                 self.heuristic_calls = getattr(self, 'heuristic_calls', []) + [('weight', np.array(weight, dtype=float))]
                 return super().heuristic(weight)
@@ -256,6 +260,19 @@ def check_primal(pep, handles, tau_primal, tau_dual, wrapper, fails):
     Gproj = (V * np.maximum(w, 0)) @ V.T
     if np.max(np.abs(Gp - Gproj), initial=0) > 10 * t:
         fails.append(('C02', 'gram', 'inner products of the evaluated leaf points differ from the PSD projection of the Gram matrix by %.3g' % np.max(np.abs(Gp - Gproj))))
+    # the public arrays of the problem object are that same instance
+    Gl = np.asarray(pep.G_value, dtype=float)
+    if Gl.shape != Gp.shape:
+        fails.append(('C02', 'gram.public', 'PEP.G_value has shape %s for %d leaf points' % (Gl.shape, n)))
+    else:
+        wl, Vl = np.linalg.eigh((Gl + Gl.T) / 2)
+        if np.max(np.abs(Gp - (Vl * np.maximum(wl, 0)) @ Vl.T), initial=0) > 10 * t:
+            fails.append(('C02', 'gram.public', 'PEP.G_value (PSD part) differs from the inner products of the evaluated leaf points by %.3g' % np.max(np.abs(Gp - (Vl * np.maximum(wl, 0)) @ Vl.T))))
+    from PEPit.expression import Expression as _E
+    Fl = np.asarray(pep.F_value, dtype=float).reshape(-1)
+    Fe = np.array([x.eval() for x in _E.list_of_leaf_expressions], dtype=float)
+    if Fl.shape != Fe.shape or np.max(np.abs(Fl - Fe), initial=0) > 1e-9 * (1 + np.max(np.abs(Fe), initial=0)):
+        fails.append(('C02', 'function_values.public', 'PEP.F_value differs from the values of the leaf expressions'))
     for p in handles.get('points', []):
         want = sum((wgt * k.eval() for k, wgt in p.decomposition_dict.items()), np.zeros_like(vals[0]) if vals else 0)
         if np.max(np.abs(np.asarray(p.eval()) - want), initial=0) > 1e-9:
